@@ -229,7 +229,7 @@ StepEval(m) ==
 \* a value v was yielded to coroutine pid (the owner of a for loop)
 Deliver(m, pid, v) ==
   LET p == m.cors[pid]  f == Last(p.k)  n == f.n IN
-  IF v.k = "nil" THEN Raise("nil", "nil", "MOV", <<v>>)
+  IF v.k = "nil" THEN Raise("nil", "nil", "MOV", <<v>>) @@ [at |-> pid]     \* the loop owner's assignment fails, in the owner's context
   ELSE LET m1 == SetVar(m, p, n.vars[f.j], v) IN
        IF f.j < Len(n.vars) THEN
             (IF f.first THEN Go(ForkGen(m1, pid, p, f, f.j + 1)) ELSE Go(ResumeGen(m1, pid, p, f, f.j + 1)))
@@ -464,7 +464,7 @@ Step ==
           /\ UNCHANGED <<pi, cors, cur, heap, globals, out, stdin, itemstart, peakk>>
      ELSE /\ Observe([err |-> r.raise, alt |-> r.alt, out |-> out,
                        report |-> [op |-> r.op, args |-> [i \in 1..Len(r.args) |-> Rendered(r.args[i])],
-                                   ctxs |-> LET ch == Chain(M, cur) IN
+                                   ctxs |-> LET ch == Chain(M, IF "at" \in DOMAIN r THEN r.at ELSE cur) IN
                                             IF "frame" \in DOMAIN r
                                             THEN << << [name |-> r.frame.name, args |-> [i \in 1..Len(r.frame.args) |-> Rendered(r.frame.args[i])]] >> \o ch[1] >> \o Tail(ch)
                                             ELSE ch]], "stmtend", si + 1)
